@@ -1,6 +1,8 @@
 (** Closed restart theorem (C08) about whole set-ups: the restarted simulation — new clock from the restart
     time, forcing module and releaser constructed afresh from the same files and table — writes the records
-    the uninterrupted simulation writes after the restart step, with the steps counted from the restart. *)
+    the uninterrupted simulation writes after the restart step, with the steps counted from the restart.
+    Covers the three advection schemes: the flow of the restarted run at step n, stage fraction f, is the flow of
+    the uninterrupted run at step n + r, fraction f ([uf_w]: the interpolation points move with the steps). *)
 From Coq Require Import ZArith QArith List Bool Lia.
 From Ladim Require Import Base.Num Model.Time Model.ForcingTime Model.Release Model.Sim Model.Setup Model.SetupWarm.
 From Ladim Require Import Proofs.SimProofs Proofs.SimRelProofs Proofs.SimShiftProofs Proofs.SimRestartProofs
@@ -171,6 +173,18 @@ Proof.
     + cbn. rewrite !inject_Z_plus. apply lerp_shift'.
     + apply (IH x).
 Qed.
+(** [lerp_spec] depends on the point only up to == *)
+Lemma lerp_spec_ext pts : forall x y, (x == y)%Q ->
+  opt_rel (fun v w => (w == v)%Q) (lerp_spec pts x) (lerp_spec pts y).
+Proof.
+  induction pts as [|[a fa] rest IH]; intros x y E; cbn [lerp_spec]; [exact I|].
+  destruct rest as [|[b fb] rest'].
+  - rewrite (Qeqb_comp _ _ E _ _ (Qeq_refl (inject_Z a))).
+    destruct (Qeq_bool y (inject_Z a)); cbn; [reflexivity|exact I].
+  - rewrite (Qleb_comp _ _ (Qeq_refl (inject_Z a)) _ _ E), (Qleb_comp _ _ E _ _ (Qeq_refl (inject_Z b))).
+    destruct (Qle_bool (inject_Z a) y && Qle_bool y (inject_Z b)); [|apply IH; exact E].
+    cbn. unfold lerp. rewrite E. reflexivity.
+Qed.
 Lemma latest_spec_shift pts c : forall n,
   latest_spec (map (fun p => (fst p + c, snd p)) pts) (n + c) = latest_spec pts n.
 Proof.
@@ -280,13 +294,6 @@ Proof.
 Qed.
 
 (** forcing machines against the specification, from the three forcing facts alone *)
-Lemma m_u_spec' s n : nodupb (map fstep (s_raw s)) = true -> readable (s_raw s) (s_disk s) = true ->
-  covers (s_raw s) n = true -> 0 <= n -> (m_u s n == sp_u s n)%Q.
-Proof.
-  intros A B C Hn. unfold m_u, sp_u, m_fstate.
-  destruct (forcing_refines_lerp (s_raw s) (s_disk s) true (rev (s_tk s)) n A B C Hn) as (st & v & E1 & E2 & _ & H).
-  rewrite E1, E2. exact H.
-Qed.
 Lemma m_temp_spec' s n : nodupb (map fstep (s_raw s)) = true -> readable (s_raw s) (s_disk s) = true ->
   covers (s_raw s) n = true -> 0 <= n -> (m_temp s n == sp_temp s n)%Q.
 Proof.
@@ -333,22 +340,26 @@ Section Restart.
   Proof. intro Hn. rewrite raw_w. apply covers_shf; [lia|]. apply (of_covers s F). lia. Qed.
 
   (** the forcing in force at step n of the restarted run is the forcing at step n + r of the original *)
-  Lemma u_w n : 0 <= n < s_nsteps s - r -> (m_u w n == m_u s (n + r))%Q.
+  Lemma uf_w n f : 0 <= n < s_nsteps s - r -> frac_ok f -> (m_uf w n f == m_uf s (n + r) f)%Q.
   Proof.
-    intro Hn.
-    rewrite (m_u_spec' w n w_nodup w_readable (w_covers n (proj2 Hn)) (proj1 Hn)).
-    rewrite (m_u_spec s (n + r) F) by lia.
-    unfold sp_u. rewrite raw_w. unfold s_disk, w. cbn [warm_setup s_files s_tk warm_tk rev].
+    intros Hn Hf.
+    rewrite (m_uf_spec' w n f w_nodup w_readable (w_covers n (proj2 Hn)) (proj1 Hn) Hf).
+    rewrite (m_uf_spec s (n + r) f F) by (lia || exact Hf).
+    unfold sp_uf. rewrite raw_w. unfold s_disk, w. cbn [warm_setup s_files s_tk warm_tk rev].
     rewrite upts_shf.
-    pose proof (lerp_spec_shift (upts (s_raw s) (disk_of (s_files s))) (- r) (inject_Z (n + r))) as H.
-    assert (lerp_spec (map (fun p => (fst p + - r, snd p)) (upts (s_raw s) (disk_of (s_files s)))) (inject_Z n) =
-            lerp_spec (map (fun p => (fst p + - r, snd p)) (upts (s_raw s) (disk_of (s_files s)))) (inject_Z (n + r) + inject_Z (- r))) as E2.
-    { f_equal. rewrite inject_plus_leib. f_equal. lia. }
-    rewrite E2.
-    destruct (lerp_spec (upts _ _) (inject_Z (n + r))) as [v|];
-      destruct (lerp_spec (map _ _) (inject_Z (n + r) + inject_Z (- r))) as [v'|]; cbn in H; try contradiction; [|reflexivity].
-    destruct (rev (s_tk s)); rewrite H; reflexivity.
+    set (pts := upts (s_raw s) (disk_of (s_files s))).
+    set (pts' := map (fun p => (fst p + - r, snd p)) pts).
+    pose proof (lerp_spec_shift pts (- r) (inject_Z (n + r) + f)%Q) as H. fold pts' in H.
+    assert (inject_Z (n + r) + f + inject_Z (- r) == inject_Z n + f)%Q as E2
+      by (rewrite inject_Z_plus, inject_Z_opp; ring).
+    pose proof (lerp_spec_ext pts' _ _ E2) as H2.
+    destruct (lerp_spec pts (inject_Z (n + r) + f)) as [v|];
+      destruct (lerp_spec pts' (inject_Z (n + r) + f + inject_Z (- r))) as [v'|]; cbn in H; try contradiction;
+      destruct (lerp_spec pts' (inject_Z n + f)) as [v''|]; cbn in H2; try contradiction; [|reflexivity].
+    destruct (rev (s_tk s)); rewrite H2, H; reflexivity.
   Qed.
+  Lemma u_w n : 0 <= n < s_nsteps s - r -> uf_eq (m_uf w n) (m_uf s (n + r)).
+  Proof. intro Hn. unfold uf_eq. repeat split; apply uf_w; auto using frac_ok_0, frac_ok_half, frac_ok_1. Qed.
   Lemma temp_w n : 0 <= n < s_nsteps s - r -> (m_temp w n == m_temp s (n + r))%Q.
   Proof.
     intro Hn.
@@ -422,7 +433,7 @@ Section Restart.
         * intros n v v' _ (_ & B & _). exact B.
         * intros n v v' c Hn R. unfold tfX, m_track.
           rewrite (move_phys s w) by (unfold phys_eq, w; cbn; repeat split; reflexivity).
-          apply move_eq; [|exact R]. rewrite u_w by lia. replace (n - r + r) with n by lia. reflexivity.
+          apply move_eq; [|exact R]. replace n with (n - r + r) at 2 by lia. apply u_w. lia.
         * intros n v v' _ R. unfold bfX. rewrite (ibm_phys s w) by (unfold phys_eq, w; cbn; repeat split; reflexivity).
           exact (ibm_eq s n v v' R).
         * intros n _. unfold duX. rewrite due_w. f_equal. lia.
